@@ -25,6 +25,9 @@ pub enum DirFault {
     Delete { file: usize },
     /// a file that is not a mapping file appears in the tree
     Stray,
+    /// the package directory that holds file `file` cannot be listed (it lies deeper than PATH_MAX): the walk meets an
+    /// error in the middle of the tree (missed seeded change C12-13: errors of the walk dropped)
+    Unlistable { file: usize },
 }
 
 #[derive(Clone, Serialize, Deserialize)]
@@ -184,6 +187,7 @@ impl Engine for C12 {
                         2 => DirFault::Truncate { file, at: f.below(400) },
                         3 => DirFault::Flip { file, off: f.below(400), bit: f.below(8) as u8 },
                         4 => DirFault::Delete { file },
+                        _ if f.chance(50) => DirFault::Unlistable { file },
                         _ => DirFault::Stray,
                     });
                 }
@@ -457,6 +461,7 @@ impl Engine for C12 {
                     let mut files = tree.clone();
                     let mut healed = None;
                     let mut expect_equal = true;
+                    let mut unlistable = false;
                     match &dp.fault {
                         None => {}
                         Some(DirFault::Crash { files: k, at }) => {
@@ -501,6 +506,7 @@ impl Engine for C12 {
                                 st.fired(&["dir_delete"]);
                             }
                         }
+                        Some(DirFault::Unlistable { .. }) => {}
                         Some(DirFault::Stray) => {
                             files.push(("README.txt".into(), b"CLASS not a mapping file\n".to_vec()));
                             files.push(("sub/notes.mappings".into(), b"garbage\n".to_vec()));
@@ -531,6 +537,18 @@ impl Engine for C12 {
                     }
                     st.events += 3 * created.len() as u64;
                     st.sched.u64(dp.create_order);
+                    if let Some(DirFault::Unlistable { file }) = &dp.fault {
+                        // bury the top-level package directory of one file (if it has one)
+                        let with_dir: Vec<&String> = files.iter().map(|x| &x.0).filter(|n| n.contains('/')).collect();
+                        if !with_dir.is_empty() {
+                            let top = with_dir[*file % with_dir.len()].split('/').next().unwrap_or("").to_string();
+                            if d.bury(&format!("{r_real}/{top}")) {
+                                expect_equal = false;
+                                unlistable = true;
+                                st.fired(&["dir_unlistable"]);
+                            }
+                        }
+                    }
                     let tier = if expect_equal { "T1" } else { "T2" };
                     st.tier(if expect_equal { "T1" } else { "T2" });
                     match no_panic(|| read_dir_real(&rdir, m)) {
@@ -546,6 +564,11 @@ impl Engine for C12 {
                             if expect_equal {
                                 if let Some((path, det)) = m.diff_path(&r) {
                                     out.push(Violation::new("T1", "schedule-dependence", format!("dir-read.{path}"), det));
+                                }
+                            } else if unlistable {
+                                // every file is intact, one directory just cannot be listed by its path: an error, or all of it
+                                if let Some((path, det)) = m.diff_path(&r) {
+                                    out.push(Violation::new("T2", "reader-ok-with-wrong-data", format!("dir-read.unlistable.{path}"), format!("a package directory of the tree cannot be listed (path longer than PATH_MAX); the read returned Ok without its classes: {det}")));
                                 }
                             } else {
                                 match read_tree_ref(&files, m) {
